@@ -71,6 +71,9 @@ class Net:
         self.G = G
         self.rnd = rnd
         self.spell = spelling(rnd)
+        # every peer answers after this many (virtual) seconds: each hop stays below the client's 30 s timeout, a chain of
+        # several hops does not - the timeout is per request, the redirect bound is a count
+        self.latency = rnd.choice([0, 0, 0, 11, 14])
         self.loop = VLoop()
         asyncio.set_event_loop(self.loop)
         self.dir = tempfile.mkdtemp(prefix="vf-redir-", dir="/dev/shm" if os.path.isdir("/dev/shm") else None)
@@ -152,7 +155,10 @@ class Peer(FakeTransport):
             ans = self.net.G.get(u) if u else None
             header = meta_for(ans, self.net.rnd, self.net.spell) if ans else "51 not in this world"
             body = b"FINAL-CONTENT\n" if header.startswith("20") else b""
-            self.loop.call_soon(self._answer, header.encode() + b"\r\n" + body)
+            if self.net.latency:
+                self.loop.call_later(self.net.latency, self._answer, header.encode() + b"\r\n" + body)
+            else:
+                self.loop.call_soon(self._answer, header.encode() + b"\r\n" + body)
 
     def _answer(self, reply):
         if not (self.closing or self.lost):
